@@ -62,20 +62,36 @@ def header(seq, ty, ver, m):
 
 
 def mk_mac(case):
+    """The MAC object as the record layer itself makes it (RecordLayer._getHMACMethod picks the constructor)."""
     kind, key = case['mac'], bytes(case['key'])
     if kind.startswith('toy'):
         return ToyMac(key, case['ds'], case['mbs'])
-    from tlslite.mathtls import createHMAC, createMAC_SSL
+    from tlslite.recordlayer import RecordLayer
+    from tlslite.mathtls import createHMAC
     from tlslite.utils import tlshashlib as hashlib
-    if tuple(case['ver']) == (3, 0) and kind in ('md5', 'sha1'):
-        return createMAC_SSL(key, digestmod=getattr(hashlib, kind))   # what the record layer uses for SSLv3
-    return createHMAC(key, getattr(hashlib, kind))
+    if tuple(case['ver']) == (3, 0) and kind not in ('md5', 'sha1'):
+        # no SSLv3 suite uses SHA-2 (the SSL 3.0 MAC is defined for MD5 and SHA-1 only): here the
+        # function under test is exercised with a generic MAC object, HMAC in both roles
+        return createHMAC(key, getattr(hashlib, kind))
+    return RecordLayer._getHMACMethod(tuple(case['ver']))(key, getattr(hashlib, kind))
 
 
 def mac_of(case, msg):
-    m = mk_mac(case)
-    m.update(msg)
-    return bytes(m.digest())
+    """The MAC the protocol specifies, computed WITHOUT the library: RFC 2104 HMAC for TLS 1.0-1.2,
+    the SSL 3.0 MAC (RFC 6101 5.2.3.1: hash(key + 0x5c*n + hash(key + 0x36*n + msg)), n = 48 for MD5 and
+    40 for SHA-1) for SSLv3.  ToyMac is the harness's own function in both roles."""
+    kind, key = case['mac'], bytes(case['key'])
+    if kind.startswith('toy'):
+        m = ToyMac(key, case['ds'], case['mbs'])
+        m.update(msg)
+        return bytes(m.digest())
+    import hashlib as _hl
+    import hmac as _hm
+    if tuple(case['ver']) == (3, 0) and kind in ('md5', 'sha1'):
+        n = {'md5': 48, 'sha1': 40}[kind]
+        inner = _hl.new(kind, key + b'\x36' * n + bytes(msg)).digest()
+        return _hl.new(kind, key + b'\x5c' * n + inner).digest()
+    return _hm.new(key, bytes(msg), kind).digest()
 
 
 def py_spec(case):
